@@ -9,7 +9,7 @@ WT=/tmp/seedconfirm.$$
 git -C /repo worktree add --detach $WT HEAD >/dev/null 2>&1 || exit 2
 trap 'git -C /repo worktree remove --force $WT >/dev/null 2>&1' EXIT
 cd $WT
-place=$(head -1 $D/demo_test.go | sed -n 's,^// place in: *,,p' | tr -d ' ')
+place=$(head -1 $D/demo_test.go | sed -n 's,^// place in: *,,p' | awk '{print $1}')
 [ -z "$place" ] && place=.
 cp $D/demo_test.go $WT/$place/zz_seed_demo_test.go
 pkg=./$place
